@@ -227,7 +227,7 @@ def c02(tier):
     exe = build.build("plain")
     full = tier == "thorough"
     others = {}
-    fam = families(ck, exe, ["F1", "F3", "F4", "F5", "F7"] + (["F6"] if full else []), full, True)
+    fam = families(ck, exe, ["F1", "F3", "F4", "F5", "F7"] + (["F6", "F2", "F8"] if full else []), False, True)   # per-move expectations: quick-size families also in the thorough tier
     applied = 0
     for f in fam:
         take(ck, "C02", f["disc"], others)
@@ -320,7 +320,7 @@ def c03(tier):
     need(cnt, ["undo_cmp", "undo", "undonull"], "C03 traces")
     take(ck, "C03", viols, others)
     # make/unmake of every legal move of the family positions, and of every legal reply below it (two levels, complete)
-    fam = families(ck, exe, ["F3", "F4", "F5", "F8"] + (["F1"] if full else []), False, False, nested=True)
+    fam = families(ck, exe, ["F3", "F4", "F5", "F8"] + (["F1", "F2", "F7"] if full else []), False, False, nested=True)
     for f in fam:
         take(ck, "C03", f["disc"], others)
     ck.cov["nested_two_level_unmakes"] = sum(f["nested"] for f in fam)
@@ -441,7 +441,7 @@ def per_move(pid, tier, level, cmpkey, fams, rule, extra_need=()):
     others = {}
     applied = 0
     if fams:
-        fam = families(ck, exe, fams, full, True)
+        fam = families(ck, exe, fams, False, True)    # per-move expectations: quick-size families also in the thorough tier (the full ones take hours)
         for f in fam:
             take(ck, pid, f["disc"], others)
             applied += f["applied"]
@@ -465,7 +465,7 @@ def per_move(pid, tier, level, cmpkey, fams, rule, extra_need=()):
 
 
 def c15(tier):
-    ck = per_move("C15", tier, "model_checking", "cls_cmp", ["F3", "F4", "F2", "F5"] + (["F1"] if tier == "thorough" else []),
+    ck = per_move("C15", tier, "model_checking", "cls_cmp", ["F3", "F4", "F2", "F5"] + (["F1", "F6", "F7", "F8"] if tier == "thorough" else []),
                   "for every legal move of every visited position the engine's three answers (capture, quiet, gives check) are compared with IsCapture / "
                   "IsQuiet / GivesCheck = InCheck(Apply) of the specification. spec->code: all legal moves of families F3 (castling, incl. castling that "
                   "gives check along the f/d file), F4 (promotions with and without capture, checking via the new piece), F1 (en passant incl. discovered "
@@ -476,7 +476,7 @@ def c15(tier):
 
 
 def c16(tier):
-    ck = per_move("C16", tier, "model_checking", "uci_cmp", ["F3", "F7", "F4"],
+    ck = per_move("C16", tier, "model_checking", "uci_cmp", ["F3", "F7", "F4"] + (["F1", "F5", "F8"] if tier == "thorough" else []),
                   "per legal move: the engine's uci(m) is the move the specification denotes, parse_uci(uci(m)) is the same engine move, the packed word "
                   "decodes to the move's fields (castling code for castling); per position: Position(fen()) prints the identical FEN, has identical keys "
                   "and piece placement and compares equal; spec->code: family FENs printed by the specification are loaded and printed back by the engine; "
